@@ -666,6 +666,12 @@ var TemplateLocals = map[string][]string{
 	"matryer": {"mock", "callInfo", "calls", "lockGet", "ok", "i", "_", "r0"},
 }
 
+// templateLocalTypes gives the type the templates' own locals have, where it is a plain Go type.
+var templateLocalTypes = map[string]Ty{
+	"ok": B("bool"), "i": B("int"), "_i": B("int"),
+	"_va": {K: "slice", Elem: &Ty{K: "basic", Name: "any"}}, "_ca": {K: "slice", Elem: &Ty{K: "basic", Name: "any"}},
+}
+
 // HostileLocals renames, in some methods, one parameter to an identifier the named template
 // uses for its own locals. Preferred victims are parameters whose type admits len() and a
 // zero length (slices, maps, strings, channels): a generated statement that reads the
@@ -687,7 +693,7 @@ func HostileLocals(t *rapid.T, m *Module, template string) int {
 					if rapid.Bool().Draw(t, "variadic-local") {
 						mpool = vp
 					}
-				} else if rapid.IntRange(0, 2).Draw(t, "hostile-local") != 0 {
+				} else if rapid.IntRange(0, 1).Draw(t, "hostile-local") != 0 {
 					continue
 				}
 				victim := rapid.IntRange(0, len(sg.Params)-1).Draw(t, "victim")
@@ -701,6 +707,18 @@ func HostileLocals(t *rapid.T, m *Module, template string) int {
 					}
 				}
 				name := rapid.SampledFrom(mpool).Draw(t, "local")
+				if rapid.IntRange(0, 2).Draw(t, "typed-local") == 0 {
+					// prefer the locals whose type a parameter can share (see templateLocalTypes)
+					var typed []string
+					for _, n := range mpool {
+						if _, ok := templateLocalTypes[n]; ok {
+							typed = append(typed, n)
+						}
+					}
+					if len(typed) > 0 {
+						name = rapid.SampledFrom(typed).Draw(t, "typed-local-name")
+					}
+				}
 				clash := name == "_"
 				for i, p := range sg.Params {
 					if i != victim && p.Name == name {
@@ -721,6 +739,11 @@ func HostileLocals(t *rapid.T, m *Module, template string) int {
 					continue
 				}
 				sg.Params[victim].Name = name
+				// The template's own local of that name has a type; with the parameter of the same
+				// type a statement that reads the wrong one still compiles and misbehaves silently.
+				if ty, ok := templateLocalTypes[name]; ok && !(sg.Variadic && victim == len(sg.Params)-1) && rapid.IntRange(0, 3).Draw(t, "same-type-as-local") > 0 {
+					sg.Params[victim].T = ty
+				}
 				// Go forbids mixing named and unnamed parameters
 				for i := range sg.Params {
 					if sg.Params[i].Name == "" {
